@@ -397,7 +397,7 @@ def _slice_1d(dim_shape, lengths, index):
 
         for i in range(istart, istop):
             length = lengths[i]
-            if start < length and stop > 0:
+            if start < length and stop > 0 and start < stop:
                 d[i] = slice(start, min(stop, length), step)
                 start = (start - length) % step
             else:
